@@ -352,3 +352,40 @@ CONTRACTS[L + "c17_vlq_reader_inverts_writer"] = dict(
     split=[{"assume": "n < 128"}, {"assume": "128 <= n and n < 16384"},
            {"assume": "16384 <= n and n < 2097152"}, {"assume": "2097152 <= n"}],
     properties=["C17", "C16"], battery=None)
+
+
+# ------------------------------------------------------------------ C18
+from mingus.midi.sequencer import Sequencer as _Sequencer  # noqa: E402
+from mingus.midi.sequencer_observer import SequencerObserver as _Observer  # noqa: E402
+
+
+def c18_every_listener_in_order(seq, l1, l2, msg, params):
+    seq.listeners = []
+    seq.attach(l1)
+    seq.attach(l2)
+    seq.attach(l1)          # attaching twice must not duplicate delivery
+    seq.notify_listeners(msg, params)
+    n = len(seq.listeners)
+    seq.detach(l1)
+    seq.notify_listeners(msg, params)
+    return (n, len(seq.listeners))
+
+
+CONTRACTS.update({
+    L + "c18_every_listener_in_order": dict(
+        params={"seq": "Sequencer", "l1": "SequencerObserver", "l2": "SequencerObserver", "msg": "int",
+                "params": "dict[channel:int,control:int,value:int]"},
+        requires="msg == 2", returns="(int,int)",
+        ensures=[("attached-once-each", "result == (2, 1)"),
+                 ("same-message-to-every-listener-in-order-then-only-the-remaining-one",
+                  "trace_events() == [('observer.cc_event', l1, params['channel'], params['control'], params['value']), "
+                  "('observer.cc_event', l2, params['channel'], params['control'], params['value']), "
+                  "('observer.cc_event', l2, params['channel'], params['control'], params['value'])]")],
+        inline_callees=["mingus.midi.sequencer.Sequencer.notify_listeners", "mingus.midi.sequencer.Sequencer.attach",
+                        "mingus.midi.sequencer.Sequencer.detach",
+                        "mingus.midi.sequencer_observer.SequencerObserver.notify"],
+        modifies=["param:seq"],
+        notes="the real attach / detach / notify_listeners / observer.notify bodies are executed here; only the observer "
+              "callbacks are abstract trace hooks",
+        properties=["C18"], battery=None),
+})
